@@ -780,7 +780,7 @@ func c32Redistribute(d c32Dispatch) {
 		"unsent":    fmt.Sprintf("ordered actor lists of length 0..%d (one less for 2 survivors) over %d kinds, 0..2 lazy grains", maxActors, len(c32RedistKinds)),
 	})
 	defer e.Done()
-	bud := c32Share(e, 0.20)
+	bud := c32Share(e, 0.35)
 	for ns := 0; ns <= 2; ns++ {
 		roleIdx := make([]int, ns+1) // [0] = leader
 		for {
@@ -935,7 +935,7 @@ func c32Batching(t *testing.T) {
 		"batch_size": defaultRelocationBatchSize,
 	})
 	defer e.Done()
-	bud := c32Share(e, 0.06)
+	bud := c32Share(e, 0.08)
 	maxA, maxG := sizes[len(sizes)-1], gsizes[len(gsizes)-1]
 	actors := make([]*internalpb.Actor, maxA)
 	for i := range actors {
@@ -1071,7 +1071,7 @@ func c32Relocate(t *testing.T) {
 		"what": "real handleNodeLeftEvent -> relocator -> relocationWorker.relocate -> (fake transport) -> real relocateBatchHandler, stale registry records, snapshot in the leader's store",
 	})
 	defer e.Done()
-	bud := c32Share(e, 0.75)
+	bud := c32Share(e, 0.80)
 	for n := 0; n <= maxPeers; n++ {
 		nt := n + 1
 		roleIdx := make([]int, nt)
